@@ -28,6 +28,7 @@ class Harness:
         self.timeout = int(attrs.get("timeout", "900"))
         self.covers = attrs.get("covers", "all")      # all | any  (vacuity guard)
         self.leak = attrs.get("leak", "0") == "1"     # run with CBMC --memory-leak-check
+        self.nounwind = attrs.get("nounwind", "0") == "1"   # liar loops: no unwinding assertions (bounded)
 
 
 _OB_RE = re.compile(r"^\s*//\s*@ob\s+(.*)$")
@@ -183,7 +184,10 @@ def parse_terse(out):
     return res
 
 
-def run_kani(scratch, harnesses, jobs=14, features="", log_path=None, regular=False, timeout_each=900, leak=False):
+MEMCLASS_RE = re.compile(r"dereference failure|pointer|object bounds|deallocated|dead object|free|dealloc|memcpy|memmove|memset|memcmp|invalid|misaligned|uninit|double|never freed|with overflow|arithmetic overflow|offset|unwinding|same object|rust_alloc|rust_realloc|undefined|unreachable code", re.I)
+
+
+def run_kani(scratch, harnesses, jobs=14, features="", log_path=None, regular=False, timeout_each=900, leak=False, nounwind=False):
     names = [h.name for h in harnesses]
     cmd = ["cargo", "kani"] + KANI_FLAGS
     if features == "no-default":
@@ -196,6 +200,8 @@ def run_kani(scratch, harnesses, jobs=14, features="", log_path=None, regular=Fa
     if not regular:
         cmd += ["-j", str(max(1, min(jobs, len(names)))), "--output-format", "terse"]
     cmd += ["--harness-timeout", "%ds" % timeout_each]
+    if nounwind:
+        cmd += ["--no-unwinding-checks"]
     if leak:
         cmd += ["--cbmc-args", "--memory-leak-check"]
     env = dict(os.environ)
@@ -227,6 +233,14 @@ def classify(h, r):
     unsup = [c for c in fc if "not currently supported by Kani" in c[0] or "unsupported" in c[0].lower() or "unwinding assertion" in c[0]]
     if unsup:
         return "undecided", "unsupported construct / unwinding bound reached: %s" % (unsup[0],)
+    if h.expect == "memsafe":
+        # misbehaving-implementor harness: panics are allowed, memory-safety-class checks are not
+        bad = [c for c in fc if MEMCLASS_RE.search(c[0])]
+        if bad:
+            return "violation", "memory-safety-class check failed: " + "; ".join("%s @ %s:%d in %s" % c for c in bad[:6])
+        if "covers_total" in r and r["covers_sat"] == 0:
+            return "undecided", "vacuity guard: no cover satisfied"
+        return "pass", "%d panic-class check(s) failed (allowed), no memory-safety-class failure" % len(fc)
     if h.expect == "pass":
         if r["failed"] == 0 and r["status"] == "SUCCESSFUL":
             if "covers_total" in r and h.covers == "all" and r["covers_sat"] != r["covers_total"]:
